@@ -226,6 +226,11 @@ func (env *SpecEnv) lookupVar(name string) (*Value, bool) {
 		if best != nil {
 			return env.st.vars[best], true
 		}
+		if rv := env.fr.fc.rebind[name]; rv != nil {
+			if v, ok := env.st.vars[rv]; ok {
+				return v, true
+			}
+		}
 	}
 	return nil, false
 }
